@@ -6,8 +6,9 @@ Open Scope N_scope.
 
 (* one step of the loop as observed: class 0 = request dispatched (detail = request type),
    1 = client-error reply (detail = error number), 2 = abort/close, 3 = the process died
-   allocating (alloc = size of the block it asked for), 4 = panic (recovered: the loop closes
-   the connection), 5 = no progress / deadline; bytes still unread after the step; bytes
+   allocating (alloc = size of the block it asked for), 4 = panic (the loop recovers it and
+   closes the connection: allowed by the property, but not what the model predicts), 5 = no
+   progress / deadline; bytes still unread after the step; bytes
    allocated during the step *)
 Definition step11 : Type := (N * N * N * N)%type.
 Definition case11 : Type := (proto * bytes * list step11)%type.
@@ -43,7 +44,7 @@ Fixpoint oracle11 (p : proto) (wire : bytes) (unread_before : N) (obs : list ste
   | [] => true
   | (class, _, unread, alloc) :: r =>
       let at_step := drop (len wire - unread_before) wire in
-      (alloc <=? bound p wire at_step) && negb (class =? 5) && negb (class =? 4)
+      (alloc <=? bound p wire at_step) && negb (class =? 5)
       && oracle11 p wire unread r
   end.
 
@@ -54,8 +55,8 @@ Fixpoint agree11 (m : list (sstep * N * list aev)) (obs : list step11) : bool :=
   | (st, mu, tr) :: m', (class, detail, unread, alloc) :: o' =>
       if class =? 3 then
         (* died allocating: the model's step asks for a buffer of that size (the runtime
-           rounds the block up) *)
-        existsb (fun a => (asize a <=? alloc) && (alloc <? asize a + slack)) tr
+           rounds a huge block up to a multiple of 4 MiB) *)
+        existsb (fun a => (asize a <=? alloc) && (alloc <? asize a + 8 * slack)) tr
       else
         match st with
         | SReq r => (class =? 0) && (detail =? rtype r) && (mu =? unread) && agree11 m' o'
